@@ -33,9 +33,9 @@ def run(tier, seed, pid="C03"):
                               inputs_mode="missing", ptimeout=8, pbyz=12)
     rnd += qc.random_schedules(seed, "c03b", combos[:6], 30 if thorough else 4, 400 if thorough else 220,
                                inputs_mode="any", ptimeout=8, pbyz=10, cfail_mode=True)
-    vlib.conformance(o, qc.FAMILY, "QBFTTrace", qc.trace_cfg_of, "c02", rnd, tag="random")
+    vlib.conformance(o, qc.FAMILY, "QBFTTrace", qc.trace_cfg_of, "c02", rnd, tag="random", replay_of=qc.trace_to_schedule)
     vlib.conformance(o, qc.FAMILY, "QBFTTrace", qc.trace_cfg_of, "c02", qc.scenario_schedules(seed, "c03", 6 if thorough else 1),
-                     tag="scenario")
+                     tag="scenario", replay_of=qc.trace_to_schedule)
     tr = vlib.split_traces(vlib.read_ndjson(vlib.workdir(pid) + "/trace_random.ndjson"))
     vlib.binding_selftest(o, qc.FAMILY, "QBFTTrace", qc.trace_cfg_of, tr, qc.mutators())
     o.extra["decisions_observed"] = sum(1 for t in tr for e in t if e.get("ev") == "Deliver" and e.get("rule") in ("QC", "JD"))
